@@ -284,6 +284,11 @@ TraceRoundTrip ==
                          /\ Len(Ev.plain[2]) = Len(canon)),
              <<"first-diff-vs-reference-at", IF plainOk THEN FirstDiff(canon, Ev.plain[2]) ELSE 0, "canon-len", Len(canon),
                "ref-decode", IF dp.ok THEN PktDiff(dp.pkt, p) ELSE dp.why>>)
+     \* the same bytes through write_to into a writer that takes one byte per write() call (a Write sink may accept
+     \* less than it is offered: the serialisers must loop)
+     /\ Rule(l, "ChunkSame", (plainOk /\ "chunk" \in DOMAIN Ev) => (Ev.chunk[1] = "ok" /\ Ev.chunk[2] = Ev.plain[2]),
+             <<"one-byte-writer", IF "chunk" \in DOMAIN Ev THEN Ev.chunk[1] ELSE "-",
+               "first-diff", IF plainOk /\ "chunk" \in DOMAIN Ev /\ Ev.chunk[1] = "ok" THEN FirstDiff(Ev.plain[2], Ev.chunk[2]) ELSE 0>>)
      /\ Rule(l, "RoundTrip", plainOk => (Ev.pp[1] = "ok" /\ Ev.pp[2] = p),
              <<"plain", Ev.pp[1], IF Ev.pp[1] = "ok" THEN PktDiff(Ev.pp[2], p) ELSE "-">>)
      /\ Rule(l, "CompDecodes", compOk => (dc.ok /\ dc.exact /\ dc.end = Len(Ev.comp[2]) /\ dc.pkt = p),
